@@ -78,6 +78,7 @@ pub struct World {
 	pub blocks: Vec<(String, Vec<String>)>,
 	pub posted: BTreeSet<String>,
 	pub nslates: usize,
+	pub last_built: Option<core::core::BlockHeader>,
 	/// number of values seen that are not whole units
 	pub unrep: std::cell::Cell<u64>,
 }
@@ -203,6 +204,7 @@ impl World {
 			blocks: vec![],
 			posted: BTreeSet::new(),
 			nslates: 0,
+			last_built: None,
 			unrep: std::cell::Cell::new(0),
 		}
 	}
@@ -620,6 +622,59 @@ impl World {
 	/// mine one block; coinbase to wallet `to` (or to a throw-away keychain when None)
 	pub fn mine(&mut self, to: Option<&str>, include: &[String]) -> Value {
 		let prev = self.chain.head_header().unwrap();
+		self.mine_on(prev, to, include)
+	}
+
+	/// replace the last `depth` blocks by `depth + 1` new ones (coinbases to nobody);
+	/// the first new block includes those of `keep` whose transactions are valid there
+	pub fn fork(&mut self, depth: u64, keep: &[String]) -> Value {
+		let head = self.chain.head_header().unwrap();
+		if depth == 0 || depth >= head.height {
+			return json!({"ev": "fork", "depth": depth, "keep": keep, "res": "skip"});
+		}
+		let base = match self.chain.get_header_by_height(head.height - depth) {
+			Ok(h) => h,
+			Err(e) => return json!({"ev": "fork", "depth": depth, "res": "err:block", "detail": format!("{}", e)}),
+		};
+		let removed: Vec<(String, Vec<String>)> = self.blocks.split_off((head.height - depth) as usize);
+		let mut results = vec![];
+		let mut prev = base;
+		let mut kept: Vec<String> = vec![];
+		for i in 0..=depth {
+			let inc: Vec<String> = if i == 0 { keep.to_vec() } else { vec![] };
+			let r = self.mine_on(prev.clone(), None, &inc);
+			if r["res"] != "ok" {
+				// put the model view back as far as possible
+				results.push(r);
+				break;
+			}
+			if i == 0 {
+				kept = r["txs"].as_array().map(|a| a.iter().filter_map(|x| x.as_str().map(|s| s.to_string())).collect()).unwrap_or_default();
+			}
+			// the block we just processed: find it by height on whichever branch it is
+			prev = match self.last_built.clone() {
+				Some(h) => h,
+				None => break,
+			};
+			results.push(r);
+		}
+		let ok = results.iter().all(|r| r["res"] == "ok");
+		let head2 = self.chain.head_header().unwrap();
+		let switched = head2.height == head.height + 1;
+		// transactions of removed blocks that were not kept go back to "posted" (the node's pool
+		// would re-add them); the model does the same
+		for (_, txs) in removed.iter() {
+			for t in txs {
+				if !kept.contains(t) {
+					self.posted.insert(t.clone());
+				}
+			}
+		}
+		json!({"ev": "fork", "depth": depth, "keep": keep, "kept": kept, "res": if ok && switched {"ok"} else {"err:fork"},
+			"removed": removed.iter().map(|(c, t)| json!({"cb": c, "txs": t})).collect::<Vec<_>>()})
+	}
+
+	pub fn mine_on(&mut self, prev: core::core::BlockHeader, to: Option<&str>, include: &[String]) -> Value {
 		let mut txs = vec![];
 		let mut included = vec![];
 		for n in include {
@@ -674,10 +729,13 @@ impl World {
 				("".to_string(), o, k)
 			}
 		};
-		let res = node::build_block(&self.chain, &prev, &txs, out, kern)
-			.and_then(|b| node::process(&self.chain, b));
+		let res = node::build_block(&self.chain, &prev, &txs, out, kern).and_then(|b| {
+			let h = b.header.clone();
+			node::process(&self.chain, b).map(|_| h)
+		});
 		match res {
-			Ok(()) => {
+			Ok(h) => {
+				self.last_built = Some(h);
 				self.blocks.push((cbname.clone(), include.to_vec()));
 				for n in include {
 					self.posted.remove(n);
@@ -960,6 +1018,38 @@ impl World {
 		};
 		json!({"ev": "build_coinbase", "w": w, "key": key.unwrap_or(""), "h": height,
 			"fees": self.val(fees), "res": r.res(), "retkey": ret})
+	}
+
+	/// inject a divergence into the wallet's records (what a bug, a restore from an old
+	/// backup or an interrupted operation could leave): kind in
+	/// delete | spent | unspent | lock | stale
+	pub fn diverge(&mut self, w: &str, kind: &str, key: &str) -> Value {
+		let kid = parse_key(key);
+		let kind_s = kind.to_string();
+		let r = self.with(w, |wi, mask| {
+			let outs: Vec<OutputData> = wi.iter().collect();
+			let target = outs.iter().find(|o| Some(&o.key_id) == kid.as_ref()).cloned();
+			let mut batch = wi.batch(mask)?;
+			match (kind_s.as_str(), target) {
+				("delete", Some(o)) => batch.delete(&o.key_id, &o.mmr_index)?,
+				("spent", Some(mut o)) => {
+					o.status = OutputStatus::Spent;
+					batch.save(o)?
+				}
+				("unspent", Some(mut o)) => {
+					o.status = OutputStatus::Unspent;
+					batch.save(o)?
+				}
+				("lock", Some(mut o)) => {
+					o.status = OutputStatus::Locked;
+					batch.save(o)?
+				}
+				_ => return Err(libwallet::Error::GenericError("no such output".into())),
+			}
+			batch.commit()?;
+			Ok(())
+		});
+		json!({"ev": "diverge", "w": w, "kind": kind, "key": key, "res": r.res()})
 	}
 
 	pub fn scan(&mut self, w: &str, start: Option<u64>, del: bool) -> Value {
